@@ -280,3 +280,17 @@ pub fn arg_value(args: &[String], name: &str) -> Option<String> {
     }
     None
 }
+
+/// Resident set size of this process in bytes (Linux).
+pub fn rss_bytes() -> u64 {
+    std::fs::read_to_string("/proc/self/statm")
+        .ok()
+        .and_then(|s| s.split_whitespace().nth(1).and_then(|x| x.parse::<u64>().ok()))
+        .map(|pages| pages * 4096)
+        .unwrap_or(0)
+}
+
+/// Memory cap for the engines (env VERIF_MAX_RSS_GB, default 20).
+pub fn rss_cap_bytes() -> u64 {
+    std::env::var("VERIF_MAX_RSS_GB").ok().and_then(|s| s.parse::<u64>().ok()).unwrap_or(20) << 30
+}
